@@ -291,7 +291,13 @@ func (g *gateWal) Clear() error {
 	}
 	return err
 }
-func (g *gateWal) Delete() error { return g.inner.Delete() }
+func (g *gateWal) Delete() error {
+	err := g.inner.Delete()
+	if err == nil {
+		g.ev.onCleared(g)
+	}
+	return err
+}
 
 // ---------------------------------------------------------------- stream mock
 
